@@ -247,7 +247,7 @@ CHECKS = {
         "required_classes": ["table:rowid", "table:without-rowid", "table:altered", "table:overflow", "rows<=10000", "ps=512", "ps=65536", "autovacuum=1"],
         "timeout": {"quick": 400, "thorough": 2400},
         "jobs": [
-            job("select", "c01", ["TestC01Select"], 220, 3000, 4, 14),
+            job("select", "c01", ["TestC01Select"], 300, 3000, 6, 14),
         ],
     },
     "C02": {
@@ -264,7 +264,7 @@ CHECKS = {
         "required_classes": ["index:rowid:explicit", "index:rowid:auto-unique", "index:rowid:auto-pk", "index:without-rowid:explicit", "index:without-rowid:auto-unique", "index:rowid:explicit:partial", "index-rows<=1000"],
         "timeout": {"quick": 400, "thorough": 2400},
         "jobs": [
-            job("indexed", "c02", ["TestC02IndexedSelect"], 220, 3000, 4, 14),
+            job("indexed", "c02", ["TestC02IndexedSelect"], 300, 3000, 6, 14),
         ],
     },
     "C03": {
